@@ -109,6 +109,18 @@ def make_units(tier):
                               dict(kind='rr', init='s' if init == 'c' else 'c', tag='B', rr_mode='now', size='F' if fs else 'S')]
                         units.append({'name': 'credit-in-on_subscribe:%s%s/%s' % (kd, init, pub), 'inters': ds, 'flavour': flavour, 'fs': fs, 'bound': 1,
                                       'shard': [0, 1]})
+    # a channel whose responder cancels its inbound side (inside on_subscribe / after the requester's first element) and goes on
+    # answering: the other direction is untouched
+    for flavour in ('tcp', 'msg'):
+        for fs in (None, 64):
+            for init in ('c', 's'):
+                for rc in ('onsub', 1):
+                    for pub in ('manual', 'gen'):
+                        ds = [dict(kind='channel', init=init, tag='A', down=3, up=2, size='F' if fs else 'S', pub=pub, credit='max',
+                                   ending='flag' if pub == 'gen' else 'complete', resp_cancel=rc),
+                              dict(kind='rr', init='s' if init == 'c' else 'c', tag='B', rr_mode='now', size='F' if fs else 'S')]
+                        units.append({'name': 'responder-cancels-inbound:%s/%s/%s' % (init, rc, pub), 'inters': ds, 'flavour': flavour, 'fs': fs, 'bound': 1,
+                                      'shard': [0, 1]})
     return units
 
 
